@@ -4,7 +4,7 @@ package decode
 
 // The two subprocess roles (enumlib.RegisterWorker / ENUM_WORKER):
 //
-//	c01        bulk worker: reads "B <space> <lo> <hi> <notrip>" lines, enumerates the cases of the
+//	c01        bulk worker: reads "B <space> <lo> <hi> <trip-us>" lines, enumerates the cases of the
 //	           batch, answers with V/H/X lines and a final D line. Before every case it stores the
 //	           case index in an mmap'ed progress file, so that the parent knows which case a dead or
 //	           stuck worker was on.
@@ -69,10 +69,12 @@ type bulk struct {
 	c      *corpus
 	sps    []*space
 	e      *evaluator
-	seq    atomic.Uint64 // odd while a case is being decoded
 	prog   []byte
 	out    *bufio.Writer
-	noTrip atomic.Bool
+	tripNs atomic.Int64 // CPU time one decoder call may take before access to its input is revoked (0: never)
+
+	loopersPath string
+	loopers     map[string]bool
 }
 
 func envInt(name string, def int) int {
@@ -83,7 +85,7 @@ func envInt(name string, def int) int {
 }
 
 func workerMain() {
-	w := &bulk{c: buildCorpus(), out: bufio.NewWriterSize(os.Stdout, 1<<16)}
+	w := &bulk{c: buildCorpus(), out: bufio.NewWriterSize(os.Stdout, 1<<16), loopersPath: os.Getenv("C01_LOOPERS"), loopers: map[string]bool{}}
 	w.sps = buildSpaces(w.c, os.Getenv("C01_TIER") == "thorough")
 	if p := os.Getenv("C01_PROGRESS"); p != "" {
 		f, err := os.OpenFile(p, os.O_RDWR, 0)
@@ -101,8 +103,8 @@ func workerMain() {
 	debug.SetPanicOnFault(true)
 	w.e = newEvaluator()
 	tid := syscall.Gettid()
-	if os.Getenv("C01_NOTRIP") == "" && threadCPU(tid) >= 0 {
-		go w.monitor(tid, time.Duration(envInt("C01_TRIP_US", 400))*time.Microsecond)
+	if threadCPU(tid) >= 0 {
+		go w.monitor(tid)
 	}
 	fmt.Fprintf(w.out, "R %s %d\n", w.c.fp, len(w.sps))
 	w.out.Flush()
@@ -110,38 +112,88 @@ func workerMain() {
 	for in.Scan() {
 		var sp int
 		var lo, hi int64
-		var notrip int
-		if _, err := fmt.Sscanf(in.Text(), "B %d %d %d %d", &sp, &lo, &hi, &notrip); err != nil || sp < 0 || sp >= len(w.sps) {
+		var tripUs int64
+		if _, err := fmt.Sscanf(in.Text(), "B %d %d %d %d", &sp, &lo, &hi, &tripUs); err != nil || sp < 0 || sp >= len(w.sps) {
 			fmt.Fprintf(w.out, "E bad request %q\n", in.Text())
 			w.out.Flush()
 			os.Exit(3)
 		}
-		w.noTrip.Store(notrip != 0)
+		w.tripNs.Store(tripUs * 1000)
 		w.batch(w.sps[sp], lo, hi)
 	}
 }
 
-// monitor revokes access to the input arena when one case has consumed more than limit of CPU.
-func (w *bulk) monitor(tid int, limit time.Duration) {
+// monitor revokes access to the input arena when one call of a decoder has consumed more CPU time
+// than allowed. It only counts CPU time it has seen pass between two of its own polls during the
+// same call, so it under-estimates. It polls faster for a while after a trip (hangs come in runs).
+func (w *bulk) monitor(tid int) {
 	var last uint64
 	var acc, lastCPU int64
+	seen := 0
+	hot := 0
 	for {
-		time.Sleep(100 * time.Microsecond)
-		s := w.seq.Load()
-		if s&1 == 0 || s != last || w.noTrip.Load() {
-			last, acc, lastCPU = s, 0, threadCPU(tid)
+		if hot > 0 {
+			hot--
+			time.Sleep(60 * time.Microsecond)
+		} else {
+			time.Sleep(300 * time.Microsecond)
+		}
+		s := w.e.seq.Load()
+		limit := w.tripNs.Load()
+		if s&1 == 0 || s != last || limit == 0 {
+			last, seen = s, 0
 			continue
 		}
+		seen++
 		now := threadCPU(tid)
+		if seen == 1 {
+			acc, lastCPU = 0, now
+			continue
+		}
 		acc += now - lastCPU
 		lastCPU = now
-		if acc >= int64(limit) && !w.e.tripped.Load() {
+		if acc >= limit && !w.e.tripped.Load() {
 			w.e.tripped.Store(true)
 			w.e.a.protect(true)
-			acc = 0
+			hot = 2000
+			seen = 0
 		}
 	}
 }
+
+// knownLoopers re-reads the list of confirmed looping functions the parent maintains.
+func (w *bulk) knownLoopers() {
+	if w.loopersPath == "" {
+		return
+	}
+	b, err := os.ReadFile(w.loopersPath)
+	if err != nil {
+		return
+	}
+	for _, fn := range strings.Fields(string(b)) {
+		w.loopers[fn] = true
+	}
+}
+
+func (w *bulk) hasLooper(frames []string) bool {
+	for _, f := range frames {
+		if w.loopers[f] {
+			return true
+		}
+	}
+	return false
+}
+
+func trippedIn(res *[nBackings]result) []string {
+	for b := 0; b < nBackings; b++ {
+		if res[b].tripped {
+			return res[b].frames
+		}
+	}
+	return nil
+}
+
+const patience = 25 // a trip on an unconfirmed stack is repeated with this many times the CPU allowance
 
 func (w *bulk) batch(sp *space, lo, hi int64) {
 	c := w.c
@@ -150,10 +202,19 @@ func (w *bulk) batch(sp *space, lo, hi int64) {
 	hangs := map[string]*hagg{}
 	var hangOrder []string
 	var rejected []int64
-	var evals, success, ident int64
+	var evals, success, ident, spurious int64
 	buf := make([]byte, 0, maxCase)
 	prog := (*int64)(unsafe.Pointer(&w.prog[0]))
 	beat := time.Now()
+	fast := w.tripNs.Load()
+	w.knownLoopers()
+	heartbeat := func(idx int64) {
+		if time.Since(beat) > time.Second {
+			beat = time.Now()
+			fmt.Fprintf(w.out, "P %d\n", idx)
+			w.out.Flush()
+		}
+	}
 	record := func(cl string, idx int64, ac *acase, rem []byte, res *[nBackings]result) {
 		if v := viol[cl]; v != nil {
 			v.Count++
@@ -168,32 +229,47 @@ func (w *bulk) batch(sp *space, lo, hi int64) {
 		viol[cl] = v
 		violOrder = append(violOrder, cl)
 	}
+	unknownTrips := 0
 	for idx := lo; idx < hi; idx++ {
 		atomic.StoreInt64(prog, idx)
 		ac := c.gen(sp, idx, buf)
 		rem := c.seeds[c.remnant[ac.kind]].b
-		w.seq.Add(1)
 		res := w.e.eval(ac.kind, ac.x, rem)
-		w.seq.Add(1)
 		evals++
 		if ac.identity {
 			ident++
 		}
-		tripped := false
-		for b := 0; b < nBackings; b++ {
-			if res[b].tripped {
-				key := strings.Join(res[b].frames, ";")
+		if fr := trippedIn(&res); fr != nil {
+			// A trip is a hang candidate only if it repeats: at once when the stack holds a
+			// function already confirmed to loop, with a much larger allowance otherwise.
+			known := w.hasLooper(fr)
+			if !known {
+				if unknownTrips++; unknownTrips%16 == 1 {
+					w.knownLoopers()
+					known = w.hasLooper(fr)
+				}
+			}
+			if !known {
+				w.tripNs.Store(fast * patience)
+			}
+			res = w.e.eval(ac.kind, ac.x, rem)
+			w.tripNs.Store(fast)
+			heartbeat(idx)
+			if fr2 := trippedIn(&res); fr2 != nil {
+				key := strings.Join(fr2, ";")
 				if h := hangs[key]; h != nil {
 					h.count++
 				} else {
 					hangs[key] = &hagg{1, idx}
 					hangOrder = append(hangOrder, key)
+					if !known { // let the parent start the confirmation now
+						fmt.Fprintf(w.out, "C %d %s\n", idx, key)
+						w.out.Flush()
+					}
 				}
-				tripped = true
+				continue
 			}
-		}
-		if tripped {
-			continue
+			spurious++
 		}
 		if res[0].ok && !res[0].panicked {
 			if !ac.identity {
@@ -208,10 +284,8 @@ func (w *bulk) batch(sp *space, lo, hi int64) {
 				record(c2, idx, &ac, rem, &res)
 			}
 		}
-		if idx&1023 == 0 && time.Since(beat) > time.Second {
-			beat = time.Now()
-			fmt.Fprintf(w.out, "P %d\n", idx)
-			w.out.Flush()
+		if idx&1023 == 0 {
+			heartbeat(idx)
 		}
 	}
 	atomic.StoreInt64(prog, -1)
@@ -227,7 +301,7 @@ func (w *bulk) batch(sp *space, lo, hi int64) {
 	for _, i := range rejected {
 		fmt.Fprintf(w.out, "X %d\n", i)
 	}
-	fmt.Fprintf(w.out, "D %d %d %d\n", evals, success, ident)
+	fmt.Fprintf(w.out, "D %d %d %d %d\n", evals, success, ident, spurious)
 	w.out.Flush()
 }
 
